@@ -75,11 +75,18 @@ def main():
                         acc.add("fine grid has twice the y-cells", cls, 1.0, 0, sig="%s %s vs %s" % (name, Ra.shape, Rb.shape))
                         continue
                     dd = np.hypot(Ra - Rb, Za - Zb)
-                    # own end faces at joins are the neighbour's copies in both grids; compare all
-                    acc.add("original y-faces are faces of the grid with doubled ny", cls, float(dd.max()), 1e-7, where={"region": name, "loc": loc}, n=dd.size, note="bounded by refine_atol/|grad psi| and the FineContour interpolation (observed 1e-12)")
+                    myg1 = int(c1.mesh.user_options.y_boundary_guards)
+                    dom = np.ones(dd.shape[1], bool)
+                    if a_.connections["lower"] is None:
+                        dom[:myg1] = False
+                    if a_.connections["upper"] is None:
+                        dom[dd.shape[1] - myg1 :] = False
+                    acc.add("original y-faces are faces of the grid with doubled ny (faces between the targets)", cls, float(dd[:, dom].max()), 1e-7, where={"region": name, "loc": loc}, n=int(dom.sum()) * dd.shape[0], note="bounded by refine_atol/|grad psi| and the FineContour interpolation (observed 1e-12)")
+                    if (~dom).any():
+                        acc.add("original y-faces are faces of the grid with doubled ny (boundary guard cells)", cls, float(dd[:, ~dom].max()), 1e-7, where={"region": name, "loc": loc}, n=int((~dom).sum()) * dd.shape[0], sig="guard faces of %s differ between the two resolutions" % name)
                 pd1 = a_.poloidal_distance.ylow
                 pd2 = b_.poloidal_distance.ylow[:, ::2]
-                acc.add("poloidal_distance at the original faces unchanged", cls, float(np.abs(pd1 - pd2).max()), 1e-7, where={"region": name})
+                acc.add("poloidal_distance at the original faces unchanged (faces between the targets)", cls, float(np.abs(pd1 - pd2)[:, dom].max()), 1e-7, where={"region": name})
             else:
                 pa = np.asarray(a_.psi_vals)[::2]
                 pb = np.asarray(b_.psi_vals)[::4]
